@@ -229,3 +229,192 @@ Contract(FR_ + ".execute",
                    Field(lambda c: c.old(c.a.self, "_done_event"), _E + "exception"),
                    Field(lambda c: c.old(c.old(c.a.self, "_done_event"), _E + "event"), "_flag")] + ENVG,
          props=("C09", "C16"))
+
+
+# --- ThreadPool ------------------------------------------------------------------------------------------------------------------
+from pyvc.monitor import PoolMonitor, PFX, NB, NBA, THREADS, LOCK
+PEND = PFX + "nb_pending_task"
+FIELDS.declare(POOL, "_queue", type=QUEUE)
+FIELDS.declare(POOL, "_done_event", type=EVENT)
+FIELDS.declare(POOL, "_logger", type="logging.Logger")
+FIELDS.declare(POOL, LOCK)
+for _f in ("_min_threads", "_max_threads", "_threads", "_thread_id", "_timeout", NB, NBA, PEND):
+    FIELDS.declare(POOL, _f)
+
+
+def _int_ok(v):
+    """int(v) succeeds for the argument kinds of the quantifier (ints, bools, finite floats, numeric strings)"""
+    return z3.Or(V.is_int(v), V.is_bool(v), V.is_float(v), z3.And(V.is_str(v), V.int_str_ok(Val.s(v))),
+                 z3.And(V.is_bytes(v), V.int_str_ok(Val.y(v))))
+
+
+def _int_of(v):
+    return z3.If(V.is_int(v), Val.i(v), z3.If(V.is_bool(v), z3.If(Val.b(v), 1, 0),
+           z3.If(V.is_float(v), ops_trunc(Val.r(v)), z3.If(V.is_str(v), V.int_of_str(Val.s(v)), V.int_of_str(Val.y(v))))))
+
+
+def ops_trunc(r):
+    return z3.If(r >= 0, z3.ToInt(r), -z3.ToInt(-r))
+
+
+def _clamp(v, lo, hi):
+    return z3.If(v < lo, lo, z3.If(v > hi, hi, v))
+
+
+Contract(
+    POOL + ".__init__",
+    kinds={},
+    ensures=[
+        ("bad_max_threads_rejected", lambda c: implies(z3.Or(z3.Not(_int_ok(c.a.max_threads)), _int_of(c.a.max_threads) < 1),
+                                                        c.raises(ValueError)), ("C10",)),
+        ("bad_min_threads_rejected", lambda c: implies(z3.And(_int_ok(c.a.max_threads), _int_of(c.a.max_threads) >= 1,
+                                                              z3.Not(_int_ok(c.a.min_threads))), c.raises(ValueError)), ("C10",)),
+        ("sizes_stored_and_clamped", lambda c: implies(
+            z3.And(_int_ok(c.a.max_threads), _int_of(c.a.max_threads) >= 1, _int_ok(c.a.min_threads)),
+            z3.And(c.returns, c.new(c.a.self, "_max_threads") == V.VInt(_int_of(c.a.max_threads)),
+                   c.new(c.a.self, "_min_threads") == V.VInt(_clamp(_int_of(c.a.min_threads), 0, _int_of(c.a.max_threads))))),
+         ("C10",)),
+        ("starts_stopped_and_empty", lambda c: implies(c.returns, z3.And(
+            c.new(c.new(c.a.self, "_done_event"), "_flag") == V.B(True),
+            c.new(c.a.self, NB) == V.I(0), c.new(c.a.self, NBA) == V.I(0), c.new(c.a.self, PEND) == V.I(0),
+            c.new(c.a.self, "_threads") == V.empty_list(), c.gnew("q_items") == V.empty_list(),
+            c.new(c.new(c.a.self, "_queue"), "unfinished_tasks") == V.I(0),
+            c.new(c.new(c.a.self, "_queue"), "maxsize") == V.VInt(z3.If(_int_ok(c.a.queue_size), _int_of(c.a.queue_size), 0)))),
+         ("C10", "C11")),
+    ],
+    modifies=[Field(lambda c: c.a.self, f) for f in ("_logger", "_done_event", "_queue", "_timeout", LOCK, "_min_threads",
+                                                     "_max_threads", "_threads", "_thread_id", NB, NBA, PEND)] +
+             [Fresh(f) for f in ("_flag", "maxsize", "unfinished_tasks", "all_tasks_done", "args")] + [Ghost("q_items")],
+    props=("C10", "C11"),
+)
+REGISTRY_TP = __import__("pyvc.contracts", fromlist=["REGISTRY"]).REGISTRY
+REGISTRY_TP[POOL + ".__init__"].monitor = PoolMonitor(exempt=(NB, NBA, THREADS))
+
+
+def pool_inv(c, p, heap="old"):
+    rd = c.old if heap == "old" else c.new
+    q, ev, lk, lg = rd(p, "_queue"), rd(p, "_done_event"), rd(p, LOCK), rd(p, "_logger")
+    import queue as _q_, threading as _t_
+    return z3.And(
+        V.is_obj(q), Val.ref(q) >= 0, Val.ref(q) < ALLOC0, C.subclass(C.cls_of(Val.ref(q)), _q_.Queue),
+        V.is_obj(ev), Val.ref(ev) >= 0, Val.ref(ev) < ALLOC0, C.subclass(C.cls_of(Val.ref(ev)), _t_.Event), V.is_bool(rd(ev, "_flag")),
+        V.is_obj(lk), Val.ref(lk) >= 0, Val.ref(lk) < ALLOC0, V.is_obj(lg), Val.ref(lg) >= 0, Val.ref(lg) < ALLOC0,
+        Val.ref(q) != Val.ref(p), Val.ref(ev) != Val.ref(p), Val.ref(lk) != Val.ref(p), Val.ref(q) != Val.ref(ev),
+        Val.ref(lk) != Val.ref(q), Val.ref(lk) != Val.ref(ev),
+        V.is_int(rd(p, "_max_threads")), Val.i(rd(p, "_max_threads")) >= 1, V.is_int(rd(p, "_min_threads")),
+        Val.i(rd(p, "_min_threads")) >= 0, Val.i(rd(p, "_min_threads")) <= Val.i(rd(p, "_max_threads")),
+        V.is_int(rd(p, PEND)), V.is_int(rd(p, "_thread_id")), V.is_int(rd(q, "maxsize")), Val.i(rd(q, "maxsize")) >= 0,
+        V.is_int(rd(q, "unfinished_tasks")), Val.i(rd(q, "unfinished_tasks")) >= 0,
+        V.is_int(rd(p, NB)), V.is_int(rd(p, NBA)), V.is_list(rd(p, THREADS)), Val.llen(rd(p, THREADS)) >= 0,
+        V.is_list(c.gold("q_items")), Val.llen(c.gold("q_items")) >= 0,
+        V.is_list(c.gold("pool_accepted")), Val.llen(c.gold("pool_accepted")) >= 0,
+        V.is_obj(rd(q, "all_tasks_done")), Val.ref(rd(q, "all_tasks_done")) >= 0,
+        cond_owner(Val.ref(rd(q, "all_tasks_done"))) == Val.ref(q),
+        pool_unbounded(Val.ref(p)) == (Val.i(rd(q, "maxsize")) == 0))      # definition of the abbreviation used by callers
+
+
+from .server import pool_unbounded  # noqa: E402
+
+
+def lock_inv(c, p, heap="new"):
+    """the lock invariant of pyvc.monitor, as a formula over a contract context (C10: never more than max_threads workers)"""
+    rd = c.old if heap == "old" else c.new
+    nb, nba, mx = rd(p, NB), rd(p, NBA), rd(p, "_max_threads")
+    return z3.And(V.is_int(nb), V.is_int(nba), Val.i(nb) >= 0, Val.i(nba) >= 0, V.is_int(mx), Val.i(nb) <= Val.i(mx),
+                  V.is_list(rd(p, THREADS)), Val.llen(rd(p, THREADS)) >= 0)
+
+
+def _stopped(c, p, heap="old"):
+    rd = c.old if heap == "old" else c.new
+    return rd(rd(p, "_done_event"), "_flag") == V.B(True)
+
+
+_POOLW = [Field(lambda c: c.a.self, f) for f in (NB, NBA, THREADS, PEND, "_thread_id")]
+
+Contract(
+    POOL + ".__start_thread",
+    requires=[("pool", lambda c: pool_inv(c, c.a.self))],
+    ensures=[
+        ("starts_at_most_one_worker", lambda c: z3.And(
+            c.returns, V.is_bool(c.ret),
+            z3.Or(c.gnew("threads_started") == c.gold("threads_started"),
+                  c.gnew("threads_started") == c.gold("threads_started") + 1),
+            implies(c.ret == V.B(True), c.gnew("threads_started") == c.gold("threads_started") + 1),
+            implies(c.ret == V.B(False), c.gnew("threads_started") == c.gold("threads_started"))), ("C10", "C09")),
+        ("refuses_when_stopped", lambda c: implies(_stopped(c, c.a.self), z3.And(
+            c.ret == V.B(False), c.gnew("threads_started") == c.gold("threads_started"))), ("C09", "C11")),
+        ("stop_flag_untouched", lambda c: _stopped(c, c.a.self, "new") == _stopped(c, c.a.self), ("C11",)),
+        ("lock_invariant_holds_on_return", lambda c: implies(c.returns, lock_inv(c, c.a.self)), ("C10",)),
+    ],
+    modifies=_POOLW + [Ghost("threads_started"), Fresh("name"), Fresh("daemon"), Fresh("args")],
+    props=("C10", "C09"),
+)
+REGISTRY_TP[POOL + ".__start_thread"].monitor = PoolMonitor()
+
+Contract(
+    POOL + ".enqueue",
+    kinds={"method": "val"},
+    requires=[("pool", lambda c: pool_inv(c, c.a.self))],
+    ensures=[
+        ("accepted", lambda c: implies(has_attr(c.a.method, sv("__call__")), z3.And(
+            implies(c.returns, z3.And(
+                V.is_obj(c.ret), c.fresh_obj(c.ret), z3.Not(_done(c, c.ret)),
+                c.gnew("pool_accepted") == _appended(c.gold("pool_accepted"), tup(c.a.method, c.a.args, c.a.kwargs, c.ret)))),
+            implies(c.raised, c.gnew("pool_accepted") == c.gold("pool_accepted")))), ("C04", "C09", "C12")),
+        ("non_callable_rejected", lambda c: implies(z3.Not(has_attr(c.a.method, sv("__call__"))), z3.And(
+            c.raised, c.gnew("pool_accepted") == c.gold("pool_accepted"))), ("C09",)),
+        ("nothing_runs_inline", lambda c: z3.And(c.gnew("call_log") == c.gold("call_log"),
+                                                 c.gnew("env_calls") == c.gold("env_calls")), ("C04", "C09")),
+        ("accepts_callables_when_unbounded", lambda c: implies(z3.And(has_attr(c.a.method, sv("__call__")),
+                                                                      pool_unbounded(Val.ref(c.a.self))), c.returns), ("C04", "C09")),
+        ("callables_have_call", lambda c: implies(V.is_fun(c.a.method), has_attr(c.a.method, sv("__call__"))), ("C04",)),
+    ],
+    modifies=_POOLW + [Ghost(g) for g in ("pool_accepted", "q_items", "q_puts", "threads_started", "call_log", "env_calls")] +
+             [Field(lambda c: c.old(c.a.self, "_queue"), "unfinished_tasks")] +
+             [Fresh(f) for f in ("_logger", "_done_event", _CB, _EX, _E + "event", _E + "data", _E + "exception", "_flag",
+                                 "name", "daemon", "args")],
+    types={"return": FR_},
+    props=("C09", "C04", "C12"),
+)
+REGISTRY_TP[POOL + ".enqueue"].monitor = PoolMonitor()
+
+
+Contract(
+    POOL + ".join",
+    requires=[("pool", lambda c: pool_inv(c, c.a.self))],
+    ensures=[
+        ("true_means_every_task_finished", lambda c: implies(z3.And(c.returns, c.ret == V.B(True)),
+                                                            c.new(c.old(c.a.self, "_queue"), "unfinished_tasks") == V.I(0)),
+         ("C11",)),
+        ("timed_join_reports_whether_all_finished", lambda c: implies(
+            z3.And(c.returns, z3.Not(V.is_none(c.a.timeout))),
+            z3.And(V.is_bool(c.ret),
+                   (c.ret == V.B(True)) == (Val.i(c.new(c.old(c.a.self, "_queue"), "unfinished_tasks")) == 0))), ("C11",)),
+        ("returns_a_bool", lambda c: implies(c.returns, V.is_bool(c.ret)), ("C11",)),
+        ("untimed_join_returns_true", lambda c: implies(V.is_none(c.a.timeout), z3.And(c.returns, c.ret == V.B(True))), ("C11",)),
+    ],
+    modifies=[Field(lambda c: c.old(c.a.self, "_queue"), "unfinished_tasks"), Ghost("q_items")],
+    props=("C11",),
+)
+
+Contract(
+    POOL + ".clear",
+    requires=[("pool", lambda c: pool_inv(c, c.a.self))],
+    ensures=[
+        ("queue_emptied", lambda c: implies(c.returns, z3.And(
+            c.new(c.old(c.a.self, "_queue"), "unfinished_tasks") == V.I(0))), ("C11",)),
+        ("every_dropped_item_is_accounted", lambda c: c.gnew("q_dones") - c.gold("q_dones") == c.gnew("q_gets") - c.gold("q_gets"),
+         ("C11", "C09")),
+        ("drops_without_running", lambda c: z3.And(c.gnew("call_log") == c.gold("call_log"),
+                                                   c.gnew("env_calls") == c.gold("env_calls")), ("C09",)),
+    ],
+    loops={0: LoopSpec(lambda L: z3.And(
+        L.ghost("q_dones") - L.ghost0("q_dones") == L.ghost("q_gets") - L.ghost0("q_gets"),
+        V.is_list(L.ghost("q_items")), Val.llen(L.ghost("q_items")) >= 0,
+        V.is_int(L.field(L.field0(L.v0("self"), "_queue"), "unfinished_tasks"))), "drain",
+        mutates=(("unfinished_tasks", lambda L: L.field0(L.v0("self"), "_queue")),))},
+    modifies=_POOLW + [Field(lambda c: c.old(c.a.self, "_queue"), "unfinished_tasks")] +
+             [Ghost(g) for g in ("q_items", "q_gets", "q_dones")],
+    props=("C11",),
+)
+REGISTRY_TP[POOL + ".clear"].monitor = PoolMonitor()
